@@ -1,5 +1,8 @@
 use super::jump_control::{JumpRecord, JumpRecordAction, JumpRecordKind};
-use crate::{bytecompiler::ByteCompiler, vm::CallFrame};
+use crate::{
+    bytecompiler::{ByteCompiler, Register},
+    vm::CallFrame,
+};
 use boa_ast::Statement;
 
 mod block;
@@ -65,26 +68,24 @@ impl ByteCompiler<'_> {
                 self.compile_switch(switch, use_expr);
             }
             Statement::Return(ret) => {
+                let value = self.alloc_return_value_register();
+
                 if let Some(expr) = ret.target() {
+                    self.compile_expr(expr, &value);
                     if self.is_async_generator() {
-                        let value = self.register_allocator.alloc();
-                        self.compile_expr(expr, &value);
                         self.bytecode.emit_await(value.variable());
                         let resume_kind = self.register_allocator.alloc();
                         self.pop_into_register(&resume_kind);
                         self.pop_into_register(&value);
                         self.generator_next(&value, &resume_kind);
                         self.register_allocator.dealloc(resume_kind);
-                        self.push_from_register(&value);
-                        self.register_allocator.dealloc(value);
-                    } else {
-                        self.compile_expr_to_stack(expr);
                     }
                 } else {
-                    self.push_from_register(&CallFrame::undefined_register());
+                    self.bytecode.emit_store_undefined(value.variable());
                 }
 
-                self.r#return(true);
+                self.r#return(Some(&value));
+                self.dealloc_return_value_register(value);
             }
             Statement::Try(t) => self.compile_try(t, use_expr),
             Statement::Expression(expr) => {
@@ -102,12 +103,36 @@ impl ByteCompiler<'_> {
         }
     }
 
-    pub(crate) fn r#return(&mut self, return_value_on_stack: bool) {
+    /// Allocates the register that holds the value of a `return` until the function returns.
+    ///
+    /// A `return` that has to run `finally` blocks first finishes long after the code at the
+    /// `return` site (see [`JumpRecordAction::Transfer`]), and an exception caught on the way
+    /// cuts the value stack back, so the value gets a register of its own.
+    pub(crate) fn alloc_return_value_register(&mut self) -> Register {
+        let runs_finally = self
+            .return_jump_record_actions()
+            .iter()
+            .any(|action| matches!(action, JumpRecordAction::Transfer { .. }));
+        if runs_finally {
+            self.register_allocator.alloc_persistent()
+        } else {
+            self.register_allocator.alloc()
+        }
+    }
+
+    /// Releases a register allocated by [`Self::alloc_return_value_register`].
+    pub(crate) fn dealloc_return_value_register(&mut self, value: Register) {
+        if !value.is_persistent() {
+            self.register_allocator.dealloc(value);
+        }
+    }
+
+    pub(crate) fn r#return(&mut self, return_value: Option<&Register>) {
         let actions = self.return_jump_record_actions();
 
         JumpRecord::new(
             JumpRecordKind::Return {
-                return_value_on_stack,
+                return_value: return_value.map(Register::index),
             },
             actions,
         )
